@@ -38,6 +38,42 @@ def products(gi, n, vals, cfg, judges, path='native', block=BLOCK * 2):
     return [(path, gi, n, ('product', vals, lo, min(total, lo + block)), cfg, judges) for lo in range(0, total, block)]
 
 
+_ND = {}
+
+
+def long_shards(tier, cfgs, judges, path='native', allk=False):
+    """sentences of 5..10 words for the synthetic grammars with at most two tags whose derivation spaces stay small enough for the
+    oracle (<= 6000 derivations in quick, <= 12000 in thorough): every matrix within one deviation (two in thorough when it fits) of
+    the constant and the two graded baselines"""
+    out = []
+    cap = 6000 if tier == 'quick' else 12000
+    for gi, g in enumerate(C01.grammars()):
+        T = len(g.tags)
+        if g.name.startswith(('en', 'ja')) or T > 2 or g.name.startswith(('BEAM', 'WIDE')):
+            continue
+        for n in range(5, 11):
+            if (gi, n) not in _ND:
+                _ND[(gi, n)] = len(C01.Space.get(gi, n)[1]) if _ND.get((gi, n - 1), 1) <= 12000 else 10 ** 9
+            nd = _ND[(gi, n)]
+            if allk and getattr(g, 'mixed', False) and cap < nd <= 20000:
+                # the dense mixed-head grammar: every derivation asked for, on the four baselines themselves
+                for base in (-1.0, 'g1', 'g2', 'g3'):
+                    out.append((path, gi, n, ('dev', V4, base, 0, 0), dict(cfgs[0], nbest=nd + 1), judges))
+            if nd == 0 or nd > cap:
+                break
+            N = S.n_entries(n, T)
+            d = 1
+            if tier == 'thorough' and C01.rows_within(N, 3, 2) * nd <= C01.WORK // 4:
+                d = 2
+            for base in (-1.0, 'g1', 'g2', 'g3'):
+                for cfg in cfgs:
+                    out.append((path, gi, n, ('dev', V4, base, d, 0), cfg, judges))
+                if allk and nd <= 6000:
+                    # every derivation is asked for (k = #derivations + 1): the three baselines and the first deviations of each
+                    out.append((path, gi, n, ('dev', V4, base, 1, 1 + (12 if tier == 'quick' else 60)), dict(cfgs[0], nbest=nd + 1), judges))
+    return out
+
+
 def finish(prop, tier, seed, st, t0, shards, rule, assumptions, extra=None):
     _, rt = boot.load_parsing()
     ex = dict(hook_active=rt.hook_active, shards=len(shards), grammars=[g.name for g in C01.grammars()],
